@@ -7,4 +7,5 @@ python3 tools/translate.py
 (cd lean && lake build ChessVerif chessdrv)
 cp /repo/Cargo.lock harness/Cargo.lock 2>/dev/null || true
 (cd harness && cargo build --offline --profile checked)
+(cd harness && CARGO_TARGET_DIR=target-nobmi2 RUSTFLAGS="-Ctarget-cpu=native -Ctarget-feature=-bmi2" cargo build --offline --profile checked)
 echo "setup done"
